@@ -506,15 +506,35 @@ func vfRunSharded(t *testing.T, env *vfEnv, testName string, n int, shards int, 
 		part := vfNewPart()
 		part.known = vfLoadKnown(env)
 		prog := env.PartFile + ".progress"
+		lastCkptViol := 0
+		startAt := 0
+		if v := os.Getenv("VERIF_SHARD_START"); v != "" {
+			startAt, _ = strconv.Atoi(v)
+		}
 		for i := env.Shard; i < n; i += env.Shards {
+			if i < startAt {
+				continue
+			}
 			_ = os.WriteFile(prog, []byte(strconv.Itoa(i)), 0644)
+			vfProgressFile, vfProgressCase = prog, i
 			if !vfGuardCase(part, env, i, runCase) {
 				part.Cases++
-				break // state may be corrupt after a recovered panic: stop this shard
+				if !vfContinueAfterPanic {
+					break // state may be corrupt after a recovered panic: stop this shard
+				}
+				continue
 			}
 			part.Cases++
 			if part.unknownViol >= 20 {
 				break
+			}
+			// checkpoint: if the process dies later (panic on a server goroutine)
+			// the parent still gets what this shard found so far
+			if nv := len(part.Violations) + len(part.KnownSeen); nv != lastCkptViol || part.Cases%50 == 0 {
+				lastCkptViol = nv
+				if cb, cerr := json.Marshal(part); cerr == nil {
+					_ = os.WriteFile(env.PartFile+".ckpt", cb, 0644)
+				}
 			}
 		}
 		b, _ := json.Marshal(part)
@@ -534,12 +554,33 @@ func vfRunSharded(t *testing.T, env *vfEnv, testName string, n int, shards int, 
 		wg.Add(1)
 		go func(s int) {
 			defer wg.Done()
+			startAt := 0
+			for attempt := 0; attempt < 200; attempt++ {
+				next := vfRunShardOnce(env, testName, s, shards, startAt, merged, &mu)
+				if next < 0 {
+					return
+				}
+				startAt = next
+			}
+		}(s)
+	}
+	wg.Wait()
+	return merged
+}
+
+// vfRunShardOnce runs shard s from case startAt on; returns -1 when the shard
+// completed, or the case index to resume from after the child died.
+func vfRunShardOnce(env *vfEnv, testName string, s int, shards int, startAt int, merged *vfPart, mu *sync.Mutex) int {
+	{
+		{
+			_ = startAt
 			partFile := filepath.Join(env.Scratch, fmt.Sprintf("part-%s-%d.json", env.Prop, s))
 			_ = os.Remove(partFile)
+			_ = os.Remove(partFile + ".ckpt")
 			outFile := partFile + ".out"
 			out, _ := os.Create(outFile)
 			cmd := exec.Command(os.Args[0], "-test.run", "^"+testName+"$", "-test.timeout", "0")
-			cmd.Env = append(os.Environ(), fmt.Sprintf("VERIF_SHARD=%d/%d", s, shards), "VERIF_PART="+partFile,
+			cmd.Env = append(os.Environ(), fmt.Sprintf("VERIF_SHARD=%d/%d", s, shards), "VERIF_PART="+partFile, fmt.Sprintf("VERIF_SHARD_START=%d", startAt),
 				"VERIF_SCRATCH="+filepath.Join(env.Scratch, fmt.Sprintf("shard%d", s)))
 			_ = os.MkdirAll(filepath.Join(env.Scratch, fmt.Sprintf("shard%d", s)), 0755)
 			cmd.Stdout = out
@@ -556,12 +597,26 @@ func vfRunSharded(t *testing.T, env *vfEnv, testName string, n int, shards int, 
 				} else {
 					merged.Harness = append(merged.Harness, "bad part file: "+jerr.Error())
 				}
-				return
+				return -1
 			}
-			// child died without a part file
+			// child died without a part file: take its last checkpoint
+			if cb, cerr := os.ReadFile(partFile + ".ckpt"); cerr == nil {
+				p := vfNewPart()
+				if json.Unmarshal(cb, p) == nil {
+					merged.Merge(p)
+				}
+				_ = os.Remove(partFile + ".ckpt")
+			}
 			caseNo := -1
+			knownSig := ""
 			if pb, perr := os.ReadFile(partFile + ".progress"); perr == nil {
-				caseNo, _ = strconv.Atoi(strings.TrimSpace(string(pb)))
+				f := strings.Fields(string(pb))
+				if len(f) > 0 {
+					caseNo, _ = strconv.Atoi(f[0])
+				}
+				if len(f) > 1 {
+					knownSig = f[1]
+				}
 			}
 			ob, _ := os.ReadFile(outFile)
 			tail := string(ob)
@@ -572,15 +627,23 @@ func vfRunSharded(t *testing.T, env *vfEnv, testName string, n int, shards int, 
 			if vfCrashInRepo(full) {
 				sig := vfCrashSig(full)
 				rp := vfWriteReplay(env, fmt.Sprintf("crash-case%d.json", caseNo), map[string]interface{}{"case": caseNo, "seed": env.Seed, "tier": env.Tier, "crash": vfTrunc(vfPanicHead(full), 4000)})
-				merged.Violations = append(merged.Violations, vfViolation{Prop: env.Prop, Clause: "crash", Detail: "server code crashed the process: " + sig, Case: caseNo, Replay: rp, Sig: "crash:" + sig})
+				vsig := "crash:" + sig
+				if knownSig != "" {
+					vsig = knownSig // the script had entered the history of an open known finding
+				}
+				merged.known = vfLoadKnown(env)
+				merged.Violate(vfViolation{Prop: env.Prop, Clause: "crash", Detail: "server code crashed the process: " + sig, Case: caseNo, Replay: rp, Sig: vsig})
 				merged.Cases++
+				merged.Add("child_crashes", 1)
+				if caseNo >= 0 {
+					return caseNo + shards // resume the shard behind the crashing case (cases run before it in this child are re-run by nobody: their counters are lost, not their verdicts' soundness)
+				}
 			} else {
 				merged.Harness = append(merged.Harness, fmt.Sprintf("shard %d died (%v) at case %d without result; output tail:\n%s", s, err, caseNo, tail))
 			}
-		}(s)
+		}
 	}
-	wg.Wait()
-	return merged
+	return -1
 }
 
 // vfGuardCase runs one case, converting a panic on the calling goroutine into
@@ -592,9 +655,19 @@ func vfGuardCase(part *vfPart, env *vfEnv, i int, runCase func(part *vfPart, i i
 		if r := recover(); r != nil {
 			ok = false
 			st := string(debug.Stack())
+			known := ""
+			if tp, isTagged := r.(vfTaggedPanic); isTagged {
+				r, st, known = tp.Val, tp.Stack, tp.Sig
+			}
 			msg := fmt.Sprintf("panic: %v\n%s", r, st)
 			if vfCrashInRepo(msg) {
 				sig := vfCrashSig(msg)
+				if known != "" {
+					// the script had entered the history of an open known finding
+					rp := vfWriteReplay(env, fmt.Sprintf("crash-case%d.json", i), map[string]interface{}{"case": i, "seed": env.Seed, "tier": env.Tier, "crash": vfTrunc(msg, 4000)})
+					part.Violate(vfViolation{Prop: env.Prop, Clause: "crash", Detail: "server code panicked: " + sig, Case: i, Replay: rp, Sig: known})
+					return
+				}
 				rp := vfWriteReplay(env, fmt.Sprintf("crash-case%d.json", i), map[string]interface{}{"case": i, "seed": env.Seed, "tier": env.Tier, "crash": vfTrunc(msg, 4000)})
 				part.Violate(vfViolation{Prop: env.Prop, Clause: "crash", Detail: "server code panicked: " + sig, Case: i, Replay: rp, Sig: "crash:" + sig})
 			} else {
@@ -604,6 +677,28 @@ func vfGuardCase(part *vfPart, env *vfEnv, i int, runCase func(part *vfPart, i i
 	}()
 	runCase(part, i)
 	return
+}
+
+// vfContinueAfterPanic: the case runner creates a fresh server instance per
+// case, so a panic recovered on the main goroutine does not taint later cases.
+var vfContinueAfterPanic bool
+var vfProgressFile string
+var vfProgressCase int
+
+// vfNoteFaultSig records (for the parent process) that the running case has
+// entered the history of an open known finding, in case the process dies.
+func vfNoteFaultSig(sig string) {
+	if vfProgressFile != "" {
+		_ = os.WriteFile(vfProgressFile, []byte(fmt.Sprintf("%d %s", vfProgressCase, sig)), 0644)
+	}
+}
+
+// vfTaggedPanic re-raises a panic together with the known-finding signature
+// of the history the script had entered (see vfShadow.faultSig).
+type vfTaggedPanic struct {
+	Sig   string
+	Val   interface{}
+	Stack string
 }
 
 // vfPanicHead returns the output from the first "panic:" / "fatal error:" on.
